@@ -1,4 +1,285 @@
+/-
+  C19 — recurrence rules: the encoded text is in the RECUR grammar with FREQ (after an optional RSCALE)
+  first; decoding it yields every part with the same typed values in the order of the text and encodes
+  again to the same text; any expander that is a function of the typed parts computes the same
+  occurrences from the decoded rule as from the caller's rule.
+
+  Property theorems only.  Model: ICal/Model/Recur.lean (`vRecur.__init__/to_ical/parse_type/from_ical`
+  as written, over the part codecs of C03, the TEXT codec of C07, `CaselessDict`/`canonsort_keys` of C17
+  and the generated tables `Gen.recurCanonicalOrder`, `Gen.recurTypes`).  Helper lemmas and the
+  definitions used in the statements (`RecurDomain`, `ItemOk`, `partOk`, `encode`, `GrammarDomain`,
+  `rfcValOk`): ICal/Lemmas/Recur.lean.
+
+  A rule `r : Rule` is the state of the `vRecur` dictionary: insertion-ordered (key, value list).
+  `recurCanon r` = the same parts in the order `to_ical` writes them (`sorted_items`), values
+  unchanged (`canon_is_rearrangement`, `canon_values`, `canon_order`).  `normRule r` = what the part
+  classes make of the caller's values: vFrequency and vWeekday upper-case their text, everything
+  else is kept (`normRule r = r` for a caller that writes FREQ and weekdays in upper case).
+
+  Domain (`RecurDomain`): the `CaselessDict` invariant (keys distinct, upper-cased), keys without `=`
+  and `;`, value lists non-empty, every value in the domain of the class `vRecur.types` gives its key:
+  any integer; any month number >= 0, leap or not; a weekday string the constructor accepts whose
+  upper-case form is an RFC weekdaynum; one of the seven frequencies in any case; a valid date or a
+  floating / UTC date-time; a vSkip member; for text-typed parts (RSCALE, unknown keys) a string
+  without `,` `;` `=` that is already normalised.  The `_witness` theorems show that each of these
+  clauses is needed: outside them the code does NOT round-trip (text with a comma is split into two
+  values, with a semicolon it is truncated, with `=` the whole part disappears, an empty list turns
+  into a ValueError or a list with one empty string).  None of these inputs is a rule "built from
+  RFC 5545/7529 rule parts" (RSCALE values are iana-tokens), so they bound the theorem, they are not
+  violations of the property.
+
+  Occurrence clause: `recur_same_occurrences` holds for ANY expander that is a function of the typed
+  parts (as a dictionary: insensitive to the order of the keys and to the letter case of FREQ /
+  weekday texts).  The remaining assumption (DESIGN section 4) is that `dateutil.rrule.rrulestr` is
+  such a function of the text; harness/props/C19.py compares `rrulestr(text)` with
+  `rrule(**parts)` on every generated rule.
+-/
 import ICal.Lemmas.Recur
 namespace ICal.C19
-theorem types_known : Gen.recurTypes.all (fun p => p.2 ∈ [['v','I','n','t']]) = false := by decide
+open ICal.Recur ICal.CDict
+
+/-! ## the generated tables are the ones the model understands -/
+
+/-- every class named in `vRecur.types` is one of the six the model implements (vText is the default) -/
+theorem types_known :
+    Gen.recurTypes.all (fun p => p.2 ∈ [['v', 'I', 'n', 't'], ['v', 'M', 'o', 'n', 't', 'h'],
+      ['v', 'W', 'e', 'e', 'k', 'd', 'a', 'y'], ['v', 'F', 'r', 'e', 'q', 'u', 'e', 'n', 'c', 'y'],
+      ['v', 'D', 'D', 'D', 'T', 'y', 'p', 'e', 's'], ['v', 'S', 'k', 'i', 'p']]) = true := by decide
+
+/-- the keys of `vRecur.types` are written upper-case in the source: `CaselessDict(...)` keeps them -/
+theorem types_table_caseless : recurTypesTable = Gen.recurTypes := types_table
+
+/-- `canonical_order` starts RSCALE, FREQ and names nothing twice -/
+theorem order_starts_rscale_freq :
+    Gen.recurCanonicalOrder.take 2 = [['R', 'S', 'C', 'A', 'L', 'E'], ['F', 'R', 'E', 'Q']] ∧
+      Gen.recurCanonicalOrder.Nodup := ⟨by decide, order_nodup⟩
+
+/-- the class of each RFC part is the one its value grammar needs -/
+theorem types_of_rfc_parts :
+    recurTypeOf "FREQ".toList = .freq ∧ recurTypeOf "UNTIL".toList = .ddd ∧ recurTypeOf "COUNT".toList = .int ∧
+    recurTypeOf "INTERVAL".toList = .int ∧ recurTypeOf "BYSECOND".toList = .int ∧ recurTypeOf "BYMINUTE".toList = .int ∧
+    recurTypeOf "BYHOUR".toList = .int ∧ recurTypeOf "BYDAY".toList = .weekday ∧ recurTypeOf "BYMONTHDAY".toList = .int ∧
+    recurTypeOf "BYYEARDAY".toList = .int ∧ recurTypeOf "BYWEEKNO".toList = .int ∧ recurTypeOf "BYMONTH".toList = .month ∧
+    recurTypeOf "BYSETPOS".toList = .int ∧ recurTypeOf "WKST".toList = .weekday ∧ recurTypeOf "SKIP".toList = .skip ∧
+    recurTypeOf "RSCALE".toList = .text ∧ recurTypeOf "byday".toList = .weekday ∧ recurTypeOf "X-FOO".toList = .text := by
+  decide
+
+/-! ## `sorted_items`: the order of the text -/
+
+/-- the parts are only rearranged -/
+theorem canon_is_rearrangement (r : Rule) (h : Inv upper r) : (recurCanon r).Perm r := canon_perm h
+
+/-- values unchanged -/
+theorem canon_values (r : Rule) (h : Inv upper r) (k : Str) : odGet (recurCanon r) k = odGet r k := canon_get h k
+
+/-- keys in canonical order: the names of `canonical_order` that occur, in that order, then the
+    other names sorted by code point (`canonsort_spec` of C17) -/
+theorem canon_order (r : Rule) (h : Inv upper r) :
+    odKeys (recurCanon r) =
+      Gen.recurCanonicalOrder.filter (fun k => decide (k ∈ odKeys r)) ++
+      ((odKeys r).filter (fun k => decide (k ∉ Gen.recurCanonicalOrder))).mergeSort strLe := by
+  show odKeys (cdSortedItems upper r Gen.recurCanonicalOrder) = _
+  rw [keys_sortedItems _ h, canonsort_spec' _ _ h.1, dedupLast_of_nodup _ order_nodup]
+
+/-! ## encode, decode -/
+
+/-- `to_ical` succeeds on the domain and writes `KEY=v,v;KEY=v...` in canonical order -/
+theorem recur_to_defined (r : Rule) (h : RecurDomain r) : recurTo r = .ok (encode r) := recurTo_eq h
+
+/-- Round trip: decoding the encoded text yields every part, in the order of the text, with the
+    typed values the caller supplied (as the part classes normalise them). -/
+theorem recur_rt (r : Rule) (h : RecurDomain r) :
+    (recurTo r).bind recurFrom = .ok (recurCanon (normRule r)) := by
+  rw [recurTo_eq h]
+  exact recurFrom_encode h
+
+/-- for a caller that writes frequency and weekday texts in upper case the values are unchanged -/
+theorem recur_rt_exact (r : Rule) (h : RecurDomain r) (hn : normRule r = r) :
+    (recurTo r).bind recurFrom = .ok (recurCanon r) := by
+  rw [recur_rt r h, hn]
+
+/-- the part names of the decoded rule are the part names of the text, in the same order -/
+theorem recur_decoded_order (r : Rule) (h : RecurDomain r) (hne : r ≠ []) :
+    odKeys (recurCanon (normRule r)) = partNames (encode r) := by
+  rw [partNames_encode h hne, canon_normRule]
+  exact odKeys_mapVals (fun vs : List PartVal => vs.map normVal) (recurCanon r)
+
+/-- Text fixpoint: the decoded rule encodes again to the same text. -/
+theorem recur_text_fixpoint (r : Rule) (h : RecurDomain r) :
+    ((recurTo r).bind recurFrom).bind recurTo = recurTo r := by
+  rw [recur_rt r h]
+  show recurTo (recurCanon (normRule r)) = recurTo r
+  rw [recurTo_eq (domain_decoded h), recurTo_eq h, encode_decoded h]
+
+/-- decoding is stable: decode (encode (decode (encode r))) = decode (encode r) -/
+theorem recur_decode_stable (r : Rule) (h : RecurDomain r) :
+    (((recurTo r).bind recurFrom).bind recurTo).bind recurFrom = (recurTo r).bind recurFrom := by
+  rw [recur_text_fixpoint r h]
+
+/-! ## FREQ first, RECUR grammar -/
+
+/-- If the rule has a FREQ part, the first part of the text is `FREQ=...`, or the first is
+    `RSCALE=...` and the second `FREQ=...` (from the generated order and `canonsort_spec`). -/
+theorem recur_freq_first (r : Rule) (h : RecurDomain r) (hf : "FREQ".toList ∈ odKeys r) :
+    recurTo r = .ok (encode r) ∧ freqFirstNames (partNames (encode r)) = true :=
+  ⟨recurTo_eq h, freqFirst_encode h hf⟩
+
+/-- The same fact on keys alone, for every dictionary with distinct keys (no domain condition). -/
+theorem recur_freq_first_keys (keys : List Str) (hk : keys.Nodup) (hf : "FREQ".toList ∈ keys) :
+    freqFirstNames (canonsort keys Gen.recurCanonicalOrder) = true :=
+  freqFirst_canonsort keys hk hf
+
+/-- Rules made of RFC 5545 / RFC 7529 parts with admissible values (FREQ present, UNTIL and COUNT not
+    both, SKIP only with RSCALE) are written as a text of the RECUR grammar whose first part is FREQ
+    (after an optional RSCALE). -/
+theorem recur_grammar (r : Rule) (h : GrammarDomain r) :
+    recurTo r = .ok (encode r) ∧ rfcRecur (encode r) = true ∧ rfcRecurFreqFirst (encode r) = true :=
+  ⟨recurTo_eq h.1, freqFirst_imp_grammar _ (grammar_encode h), grammar_encode h⟩
+
+/-- every typed value the RFC admits for a part is written in that part's value grammar -/
+theorem recur_value_grammar (k : Str) (v : PartVal) (isList : Bool) (g : Str → Bool)
+    (hs : rfcPartSpec k = some (isList, g)) (hv : rfcValOk k v = true) : g (valText v) = true :=
+  val_grammar k v isList g hs hv
+
+/-! ## occurrences -/
+
+/-- Any function of the decoded rule gives the same result as on the sorted, normalised rule of the
+    caller: the immediate corollary of `recur_rt`. -/
+theorem recur_same_occurrences_canon {α : Type} (expand : Rule → α) (r : Rule) (h : RecurDomain r) :
+    ((recurTo r).bind recurFrom).map expand = .ok (expand (recurCanon (normRule r))) := by
+  rw [recur_rt r h]; rfl
+
+/-- Same occurrences: for ANY expander that reads the rule as a dictionary of typed parts (the
+    order of the keys does not matter) and reads FREQ / weekday texts caselessly, expanding the decoded
+    rule gives what expanding the caller's rule gives. -/
+theorem recur_same_occurrences {α : Type} (expand : Rule → α)
+    (horder : ∀ a b : Rule, a.Perm b → expand a = expand b)
+    (hcase : ∀ a : Rule, expand (normRule a) = expand a)
+    (r : Rule) (h : RecurDomain r) :
+    ((recurTo r).bind recurFrom).map expand = .ok (expand r) := by
+  rw [recur_same_occurrences_canon expand r h]
+  have hn : Inv upper (normRule r) := by
+    have hk : odKeys (normRule r) = odKeys r := odKeys_mapVals (fun vs : List PartVal => vs.map normVal) r
+    exact ⟨by rw [hk]; exact h.1.1, by rw [hk]; exact h.1.2⟩
+  rw [horder _ _ (canon_perm hn), hcase]
+
+/-! ## the boundary of the domain: what the code does outside it (by evaluation) -/
+
+/-- a text-typed value with a comma: written `a\,b`, read back as the TWO values `a\` and `b` -/
+theorem text_comma_witness :
+    recurTo [("X-FOO".toList, [.text "a,b".toList])] = .ok "X-FOO=a\\,b".toList ∧
+    recurFrom "X-FOO=a\\,b".toList = .ok [("X-FOO".toList, [.text "a\\".toList, .text "b".toList])] := by
+  constructor
+  · rw [recurTo_single _ _ (by decide)]; decide
+  · decide
+
+/-- with a semicolon: written `a\;b`, read back truncated to `a\` (the rest is a pair without `=`, skipped) -/
+theorem text_semicolon_witness :
+    recurTo [("X-FOO".toList, [.text "a;b".toList])] = .ok "X-FOO=a\\;b".toList ∧
+    recurFrom "X-FOO=a\\;b".toList = .ok [("X-FOO".toList, [.text "a\\".toList])] := by
+  constructor
+  · rw [recurTo_single _ _ (by decide)]; decide
+  · decide
+
+/-- with `=`: the pair splits into three and the whole part is dropped -/
+theorem text_equals_witness :
+    recurTo [("X-FOO".toList, [.text "a=b".toList])] = .ok "X-FOO=a=b".toList ∧
+    recurFrom "X-FOO=a=b".toList = .ok [] := by
+  constructor
+  · rw [recurTo_single _ _ (by decide)]; decide
+  · decide
+
+/-- CRLF inside a text value comes back as LF (the normalisation of C07) -/
+theorem text_crlf_witness :
+    recurTo [("X-FOO".toList, [.text "a\r\nb".toList])] = .ok "X-FOO=a\\nb".toList ∧
+    recurFrom "X-FOO=a\\nb".toList = .ok [("X-FOO".toList, [.text "a\nb".toList])] := by
+  constructor
+  · rw [recurTo_single _ _ (by decide)]; decide
+  · decide
+
+/-- an empty value list: `BYDAY=` is refused on decoding, `RSCALE=` decodes to one empty string -/
+theorem empty_list_witness :
+    recurTo [("BYDAY".toList, [])] = .ok "BYDAY=".toList ∧ recurFrom "BYDAY=".toList = .error .valueError ∧
+    recurTo [("RSCALE".toList, [])] = .ok "RSCALE=".toList ∧
+    recurFrom "RSCALE=".toList = .ok [("RSCALE".toList, [.text []])] := by
+  refine ⟨?_, by decide, ?_, by decide⟩
+  · rw [recurTo_single _ _ (by decide)]; decide
+  · rw [recurTo_single _ _ (by decide)]; decide
+
+/-- the decoder is lenient: lower-case names and values, `+` signs, a trailing `;`, a part without
+    `=` and a repeated key (the last value wins, at the first position) are all accepted -/
+theorem lenient_decode_witness :
+    recurFrom "freq=daily;count=+3;;byday=-1su;COUNT;FREQ=weekly;".toList =
+      .ok [("FREQ".toList, [.freq "WEEKLY".toList]), ("COUNT".toList, [.int 3]),
+           ("BYDAY".toList, [.weekday "-1SU".toList])] := by decide
+
+/-! ## Non-vacuity: the hypotheses hold of rules with every kind of part -/
+
+/-- ordinal weekdays with both signs, negative BYxxx values, leap months, UTC UNTIL, RSCALE/SKIP,
+    given in non-canonical order -/
+def ex1 : Rule :=
+  [("BYDAY".toList, [.weekday "-1SU".toList, .weekday "+2TH".toList, .weekday "MO".toList, .weekday "53FR".toList]),
+   ("SKIP".toList, [.skip "FORWARD".toList]),
+   ("FREQ".toList, [.freq "YEARLY".toList]),
+   ("BYMONTH".toList, [.month 5 true, .month 12 false]),
+   ("UNTIL".toList, [.until (.atom (.dt ⟨⟨2030, 2, 28⟩, 23, 59, 59, true⟩))]),
+   ("RSCALE".toList, [.text "CHINESE".toList]),
+   ("BYMONTHDAY".toList, [.int (-1), .int 31]),
+   ("BYYEARDAY".toList, [.int (-366), .int 1]),
+   ("BYSETPOS".toList, [.int (-1)]),
+   ("WKST".toList, [.weekday "SU".toList]),
+   ("INTERVAL".toList, [.int 2])]
+
+example : GrammarDomain ex1 := grammar_of_check (by decide)
+example : RecurDomain ex1 := (grammar_of_check (by decide : grammarB ex1 = true)).1
+example : normRule ex1 = ex1 := by decide
+
+/-- the text the theorems speak about, computed -/
+theorem ex1_text :
+    encode ex1 = ("RSCALE=CHINESE;FREQ=YEARLY;UNTIL=20300228T235959Z;INTERVAL=2;BYDAY=-1SU,+2TH,MO,53FR;" ++
+      "BYMONTHDAY=-1,31;BYYEARDAY=-366,1;BYMONTH=5L,12;BYSETPOS=-1;WKST=SU;SKIP=FORWARD").toList := by
+  unfold encode
+  rw [canon_known (domain_of_check (by decide : domainB ex1 = true)).1 (by decide)]
+  decide +kernel
+
+/-- UNTIL as a date, COUNT-free, caller writes lower case and scalars-as-one-element lists -/
+def ex2 : Rule :=
+  [("FREQ".toList, [.freq "weekly".toList]), ("UNTIL".toList, [.until (.atom (.date ⟨2024, 2, 29⟩))]),
+   ("BYDAY".toList, [.weekday "mo".toList, .weekday "-2fr".toList]), ("BYSECOND".toList, [.int 60, .int 0]),
+   ("BYWEEKNO".toList, [.int (-53)])]
+
+example : GrammarDomain ex2 := grammar_of_check (by decide)
+example : normRule ex2 ≠ ex2 := by decide
+example : encode ex2 = "FREQ=WEEKLY;UNTIL=20240229;BYSECOND=60,0;BYDAY=MO,-2FR;BYWEEKNO=-53".toList := by
+  unfold encode
+  rw [canon_known (domain_of_check (by decide : domainB ex2 = true)).1 (by decide)]
+  decide
+example : recurFrom "FREQ=WEEKLY;UNTIL=20240229;BYSECOND=60,0;BYDAY=MO,-2FR;BYWEEKNO=-53".toList =
+    .ok [("FREQ".toList, [.freq "WEEKLY".toList]), ("UNTIL".toList, [.until (.atom (.date ⟨2024, 2, 29⟩))]),
+         ("BYSECOND".toList, [.int 60, .int 0]), ("BYDAY".toList, [.weekday "MO".toList, .weekday "-2FR".toList]),
+         ("BYWEEKNO".toList, [.int (-53)])] := by decide
+
+/-- floating UNTIL with COUNT-less rule and an unknown X- part: in the codec domain, not in the grammar -/
+def ex3 : Rule :=
+  [("X-CUSTOM".toList, [.text "abc".toList]), ("FREQ".toList, [.freq "DAILY".toList]),
+   ("UNTIL".toList, [.until (.atom (.dt ⟨⟨1, 1, 1⟩, 0, 0, 0, false⟩))])]
+
+example : RecurDomain ex3 := domain_of_check (by decide)
+example : grammarB ex3 = false := by decide
+
+-- the recogniser rejects what the RFC rejects
+example : rfcRecur "COUNT=2".toList = false := by decide                                  -- FREQ missing
+example : rfcRecur "FREQ=DAILY;COUNT=2;UNTIL=20200102".toList = false := by decide        -- COUNT and UNTIL
+example : rfcRecur "FREQ=DAILY;FREQ=DAILY".toList = false := by decide                    -- twice
+example : rfcRecur "FREQ=DAILY;BYSECOND=61".toList = false := by decide                   -- range
+example : rfcRecur "FREQ=DAILY;BYMONTHDAY=0".toList = false := by decide
+example : rfcRecur "FREQ=DAILY;BYHOUR=-1".toList = false := by decide                     -- no sign allowed
+example : rfcRecur "FREQ=DAILY;BYDAY=54MO".toList = false := by decide
+example : rfcRecur "FREQ=DAILY;WKST=1MO".toList = false := by decide
+example : rfcRecur "FREQ=DAILY;SKIP=OMIT".toList = false := by decide                     -- SKIP without RSCALE
+example : rfcRecur "FREQ=DAILY;".toList = false := by decide                              -- trailing ';'
+example : rfcRecur "COUNT=2;FREQ=DAILY".toList = true ∧ rfcRecurFreqFirst "COUNT=2;FREQ=DAILY".toList = false := by
+  decide                                                                                   -- grammar allows any order
+example : rfcRecurFreqFirst "RSCALE=HEBREW;FREQ=YEARLY;BYMONTH=5L;SKIP=BACKWARD".toList = true := by decide
+
 end ICal.C19
